@@ -314,6 +314,11 @@ class Gen(object):
                 else self.pick(["abc", "1,5"])
         if self.chance(0.1):
             op["definition"] = self.pick(TEXTS)
+        if self.chance(0.1):
+            # the name of a sibling Property - or, by accident, of a sub-Section - of the parent
+            op["dependency"] = self.name()
+            if self.chance(0.5):
+                op["dependency_value"] = self.pick(["a", "1", "x"])
         if self.chance(0.12):
             op["val_card"] = self.card()
         return op
@@ -507,7 +512,8 @@ class Gen(object):
         x = self.pick(self.nodes())
         if x is None:
             return None
-        return {"op": "reorder", "x": self.ref(x), "i": self.pick([0, 1, 2, 3])}
+        # positions inside, at and beyond both ends of the sibling list
+        return {"op": "reorder", "x": self.ref(x), "i": self.pick([0, 1, 2, 3, -1, -2, -5, 7])}
 
     def g_rename(self):
         x = self.pick(self.nodes())
